@@ -7,7 +7,8 @@ DuckDB database file `<db_path>/<DB>.db`.  The model therefore is
     (`cursor.py:_execute`: the transformed statement, then the bookkeeping upserts for a table comment
     (`cursor.py:329-336`) and VARCHAR lengths (`:338-345`), then the status SELECT (`:347-349`);
     `CREATE DATABASE` = ATTACH + info-schema DDL (`transforms.py:116-144`, `cursor.py:280-283`);
-    MERGE = candidates temp table (+ its bogus comment upsert) + one DML per WHEN clause + COUNT (`transforms_merge.py`);
+    MERGE = candidates temp table + one DML per WHEN clause + COUNT (`transforms_merge.py`; the bogus comment upsert
+    for the temp table is gone since repair 0e75b9f);
     `connect` = the ladder of `conn.py:55-104`);
   * `Eng.call` – DuckDB as a *trusted* durable log: a call outside a transaction is durable when it returns, calls
     between BEGIN and COMMIT become durable together at COMMIT, nothing else ever reaches the file (WAL/fsync trusted);
@@ -37,7 +38,7 @@ inductive Eff
   | setLen (t : Nat) (n : Nat)       -- upsert into _fs_columns_ext
   | mkView (v : Nat)
   | rows (t : Nat) (op : RowOp)
-  | junkComment                      -- MERGE: comment 'None' recorded for the temporary MERGE_CANDIDATES table
+  | junkComment                      -- before repair 0e75b9f: comment 'None' recorded for MERGE's temporary MERGE_CANDIDATES table
 deriving DecidableEq, Repr
 
 inductive Call
@@ -63,6 +64,11 @@ inductive Stmt
   | commitConflict                             -- COMMIT that fails with a commit-time conflict (raised to the caller)
 deriving DecidableEq, Repr
 
+/-- MERGE's engine calls before repair 0e75b9f (`extract_comment_on_table` tagged every CREATE with properties, so the
+    temporary candidates table got a comment row `'None'` in `_fs_tables_ext`) – kept for the regression witness -/
+def mergeCallsOld (t : Nat) (src : List (Nat × Nat)) : List Call :=
+  [.q, .w .junkComment, .q, .w (.rows t (.mergeUpd src)), .q, .w (.rows t (.mergeIns src)), .q, .q]
+
 def optCall {α} (o : Option α) (f : α → Eff) : List Call :=
   match o with
   | none => []
@@ -80,7 +86,7 @@ def calls : Stmt → List Call
   | .createView v => [.w (.mkView v), .q]
   | .createDatabase d => [.w (.attach d), .w (.info d), .q]
   | .dml t op => [.w (.rows t op), .q]
-  | .merge t src => [.q, .w .junkComment, .q, .w (.rows t (.mergeUpd src)), .q, .w (.rows t (.mergeIns src)), .q, .q]
+  | .merge t src => [.q, .q, .w (.rows t (.mergeUpd src)), .q, .w (.rows t (.mergeIns src)), .q, .q]
   | .select => [.q]
   | .begin => [.begin]
   | .commit => [.commit]
